@@ -424,12 +424,31 @@ def slxLine (args impl : List String) : String :=
     s!"{m} | {v} | {String.intercalate "," tags}"
   | _ => "bad-op | |"
 
+/-- slxc <g0> <period> [<mode>] => <class> <class> <class>: the scripts of `slx` through the C API; a call is `ok`
+    when `snapshot()` answered (fresh or from the cache: the scripted records all pass `now()`), `err2`
+    (CLOCKBOUND_ERR_SEGMENT_NOT_INITIALIZED) when the retry budget was used up -/
+def slxcLine (args impl : List String) : String :=
+  match ints args with
+  | some (g0 :: period :: rest) =>
+    let mode := (rest.headD 0).toNat
+    let m := (soloRun {} g0.toNat (max period.toNat 1) mode).splitOn " "
+    let c1 := if m.head? == some "ok" then "ok" else if m.head? == some "err" then "err2" else "unbounded"
+    let cls (pref : String) : String :=
+      match m.find? (fun t => t.startsWith pref) with
+      | some t => if t == pref ++ "err" then "err2" else if t == pref ++ "unbounded" then "unbounded" else "ok"
+      | none => "?"
+    let model := s!"{c1} {cls "then:"} {cls "final:"}"
+    let returned := impl.length == 3 && impl.all (fun t => t != "unbounded")
+    let same := String.intercalate " " impl == model
+    s!"{model} | {verdict "C18" true returned} {verdict "C17" true same} {verdict "C02" true same} {verdict "C04" true same} {verdict "C03" true same} | capi"
+  | _ => "bad-op | |"
+
 /-- crashpt <prior> <k> <k1> <k2> => ev … ; crashed open:… file:… attached:… fresh:… ; restarted … -/
 def crashLine (args0 impl : List String) : String :=
   -- `@old` / `@bin`: age and spelling of the file name; the protocol does not depend on either
   let mods := args0.takeWhile (fun t => t.startsWith "@")
   let args := args0.dropWhile (fun t => t.startsWith "@")
-  if !(mods.all (fun t => t == "@old" || t == "@bin")) then "bad-op | |" else
+  if !(mods.all (fun t => t == "@old" || t == "@bin" || t == "@uid" || t == "@link")) then "bad-op | |" else
   let parsed : Option (Crash.Prior × List String) := match args with
     | "missing" :: r => some (.missing, r) | "empty" :: r => some (.empty, r) | "garbage" :: r => some (.garbage, r)
     | "wiped" :: r => some (.wiped, r)
@@ -465,7 +484,19 @@ def crashLine (args0 impl : List String) : String :=
                verdict "C03" p.file.usable c03
       let tags := (if p.file.usable then ["priorUsable"] else ["priorUnusable"]) ++
         (if m.ev != "end" then ["crash"] else ["complete"]) ++ (if m.ev.startsWith "wipe" then ["crashInWipe"] else []) ++
-        (if mods.contains "@old" then ["oldFile"] else []) ++ (if mods.contains "@bin" then ["binaryName"] else [])
+        (if mods.contains "@old" then ["oldFile"] else []) ++ (if mods.contains "@bin" then ["binaryName"] else []) ++ (if mods.contains "@link" then ["symlink"] else [])
+      -- `@uid`: the restart happens under another user (uid 65534), which owns the directory but not the file the first
+      -- (root) incarnation left: it may read the file but not write it. If a file is there, the restart is REFUSED
+      -- (`open(O_RDWR)` / `File::create` fail with EACCES) and nothing may change: same inode, same length, attached
+      -- and fresh clients obtain what they obtained before (C04 (c): never emptied or re-created).
+      let f1 := (Crash.runUntil p.file (Crash.recCells k1) k).1
+      if mods.contains "@uid" && f1.present then
+        let freshTxt := if Crash.openText f1 == "ok" then Crash.cellsText (({} : Crash.ReaderA).snap f1).cache else Crash.openText f1
+        let mu : Crash.Observed := { m with inodeSame := true, len2 := f1.len, fresh := freshTxt, att2 := m.att1 }
+        let mtxt := (mu.text.replace "; restarted inode_same" "; restarted-refused inode_same")
+        let same := String.intercalate " " impl == mtxt
+        s!"{mtxt} | {verdict "C04" true same} C16:na C03:na | {String.intercalate "," (tags ++ ["otherUid"])}"
+      else
       s!"{m.text} | {v} | {String.intercalate "," tags}"
     | _, _, _ => "bad-op | |"
   | _ => "bad-op | |"
@@ -504,6 +535,7 @@ def processLine (line : String) : String :=
   let reqAll := (parts.headD "").trimAscii.toString.splitOn " " |>.filter (· ≠ "")
   let rec cut : List String → List String
     | "@env" :: kv :: rest => if kv.contains '=' then [] else "@env" :: cut (kv :: rest)
+    | ["@release"] => []          -- executed by the harness built with the release profile
     | x :: rest => x :: cut rest
     | [] => []
   let req0 := cut reqAll
@@ -534,6 +566,7 @@ def processLine (line : String) : String :=
   | "sandwich" :: args => (DriverH.line "sandwich" args impl).getD "bad-op | |"
   | "cabi" :: args => (DriverH.line "cabi" args impl).getD "bad-op | |"
   | "slx" :: args => slxLine args impl
+  | "slxc" :: args => slxcLine args impl
   | "skip" :: args => skipLine args impl
   | "slaba" :: _ =>
     -- K1 replay on the real code only (a 360 000-step execution is not simulated by the model): the
